@@ -91,6 +91,9 @@ def search(ctx, suspects, budget):
             if f.endswith(".json"):
                 todo.append(json.load(open(os.path.join(d, f)))["case"])
     n = 0
+    why = SL.mc_correlation_follows()
+    if why:
+        out.append(Violation(ID, "mc-correlation", {"scenario": "mc_correlation_follows"}, why))
     while len(out) < 3:
         if todo:
             ops = todo.pop(0)
@@ -118,6 +121,9 @@ def safe_fails(ops):
 
 
 def replay(ctx, v):
+    if v["kind"] == "mc-correlation":
+        why = SL.mc_correlation_follows()
+        return Violation(ID, v["kind"], v["case"], why) if why else None
     why = oracle(v["case"])
     CL.reset_world()
     return Violation(ID, v["kind"], v["case"], why) if why else None
